@@ -92,6 +92,24 @@ structure DState where
   mh : WinRes := {}
   mw : Bucket := {}
   ghost : Option Nat := none
+  t0 : Nat := 0
+  log : List (Nat × Mark) := []   -- what each call should have recorded, with its aligned bucket index
+
+def DState.record (st : DState) (m : Mark) : DState :=
+  let cur := bucketIdx st.t0 st.now
+  { st with log := (cur, m) :: st.log.filter fun e => inWindow cur e.1 }
+
+/-- the implementation printed a state: remember it; window totals used by the admission law come from the
+monitor's own log (`fb`/`wb` are only needed for the weight between 1.1 and 1.5 and are taken as printed). -/
+def DState.observe (st : DState) (ist : ImplState) : DState :=
+  let t := logTotals st.log (bucketIdx st.t0 st.now)
+  { st with mh := { ist.h with total := t.sum, accepts := t.succ }, mw := ist.w }
+
+/-- the window the implementation shows must be the calls of the preceding 10 s -/
+def checkWindow (r : Report) (sec line : Nat) (st : DState) (ist : ImplState) : Report :=
+  let t := logTotals st.log (bucketIdx st.t0 st.now)
+  if t = ist.w ∧ ist.h.total = t.sum ∧ ist.h.accepts = t.succ then r
+  else r.violation sec line s!"window shows sum/succ/fail/drop={bucketStr ist.w} history accepts/total={ist.h.accepts}/{ist.h.total} but the calls of the preceding 10s window are {bucketStr t}"
 
 /-- The decisions the implementation may legitimately take on this call: the exact one first, then the
 float-boundary alternatives (DESIGN section 2). -/
@@ -150,9 +168,11 @@ def runLine (sec : Nat) (acc : Report × DState) (l : Line) : Report × DState :
       let model := stateStr st.b now
       if model ≠ impl then r := r.mismatch sec l.idx model impl
       let st' := match parseState l.obs with
-        | some is => { st with now := now, mh := is.h, mw := is.w }
+        | some is => { st with now := now }.observe is
         | none => { st with now := now }
-      if (parseState l.obs).isNone then r := r.mismatch sec l.idx "unparsable-state" impl
+      match parseState l.obs with
+      | none => r := r.mismatch sec l.idx "unparsable-state" impl
+      | some is => r := checkWindow r sec l.idx st' is
       return (r, st')
   | ["dump"] =>
     let vis := st.b.rw.visible st.now
@@ -182,7 +202,9 @@ def runLine (sec : Nat) (acc : Report × DState) (l : Line) : Report × DState :
           let want : Bucket := if kind = "accept" then { sum := 1, succ := 1 } else { sum := 1, fail := 1 }
           if bucketDelta ist.w st.mw ≠ some want then
             r := r.violation sec l.idx s!"promise {kind} recorded as {bucketStr ((bucketDelta ist.w st.mw).getD {})} instead of {bucketStr want}"
-        return (r, { st with b := b', mh := ist.h, mw := ist.w })
+        let st1 := if l.obs.head? = some "ok" then st.record m else st
+        r := checkWindow r sec l.idx st1 ist
+        return (r, { st1 with b := b' }.observe ist)
   | ["do", es, os, cs, us] =>
     match parseEntry es, parseOutcome os, parseCtx (kvStr [cs] "ctx"), (kvStr [us] "u").toNat? with
     | some e, some o, some ctx, some m =>
@@ -199,7 +221,8 @@ def runLine (sec : Nat) (acc : Report × DState) (l : Line) : Report × DState :
                                ret := (parseRet (kvStr l.obs "ret")).getD .nil, panicked := kvStr l.obs "panic" ≠ "0",
                                marks := (bucketDelta ist.w st.mw).getD ⟨99, 0, 0, 0⟩ }
           if ¬ ctxDoneOk c then r := r.violation sec l.idx s!"call with a done context: [{impl}]"
-          return (r, { st with mh := ist.h, mw := ist.w })
+          r := checkWindow r sec l.idx st ist
+          return (r, st.observe ist)
       else
         if ctx = .live then r := r.addCover "ctx-live"
         let (cands, c1b, c3b) := candidates st.b st.now u
@@ -233,7 +256,8 @@ def runLine (sec : Nat) (acc : Report × DState) (l : Line) : Report × DState :
             if ¬ admittedOk e o c ∨ (o ≠ .panic ∧ (parseRet (kvStr l.obs "ret")).isNone) then
               r := r.violation sec l.idx s!"admitted call not accounted exactly ({es} {os}): [{impl}]"
           let (r', ghost) := monitorVerdict r sec l.idx st u rejected ist.lp
-          return (r', { st with b := chosen.2.1, mh := ist.h, mw := ist.w, ghost := ghost })
+          let st1 := st.record (if rejected then .drop else if acceptable e.custom o then .succ else .fail)
+          return (checkWindow r' sec l.idx st1 ist, { st1 with b := chosen.2.1, ghost := ghost }.observe ist)
     | _, _, _, _ => return bad r
   | ["allow", cs, us] =>
     match parseCtx (kvStr [cs] "ctx"), (kvStr [us] "u").toNat? with
@@ -248,7 +272,8 @@ def runLine (sec : Nat) (acc : Report × DState) (l : Line) : Report × DState :
         | some ist =>
           if bucketDelta ist.w st.mw ≠ some {} ∨ kvStr l.obs "v" ≠ "ctx" then
             r := r.violation sec l.idx s!"AllowCtx with a done context: [{impl}]"
-          return (r, { st with allows := st.allows.push false, mh := ist.h, mw := ist.w })
+          r := checkWindow r sec l.idx st ist
+          return (r, { st with allows := st.allows.push false }.observe ist)
       else
         let (cands, c1b, c3b) := candidates st.b st.now u
         let run (d : Bool × Bool) : String × Breaker × Path :=
@@ -274,13 +299,15 @@ def runLine (sec : Nat) (acc : Report × DState) (l : Line) : Report × DState :
           if bucketDelta ist.w st.mw ≠ some want ∨ (v ≠ "pass" ∧ v ≠ "reject") then
             r := r.violation sec l.idx s!"Allow not accounted exactly: [{impl}]"
           let (r', ghost) := monitorVerdict r sec l.idx st u rejected ist.lp
-          return (r', { st with b := chosen.2.1, allows := st.allows.push (decide (p.verdict = .pass)), mh := ist.h, mw := ist.w, ghost := ghost })
+          let st1 := if rejected then st.record .drop else st
+          return (checkWindow r' sec l.idx st1 ist,
+            { st1 with b := chosen.2.1, allows := st.allows.push (decide (p.verdict = Verdict.pass)), ghost := ghost }.observe ist)
     | _, _ => return bad r
   | _ => return bad r
 
 def runSection (r : Report) (s : Section) : Report :=
   let t0 := kvNat s.cfg "t0" 1
-  (s.lines.foldl (runLine s.idx) (r, { b := Breaker.init t0, now := t0 })).1
+  (s.lines.foldl (runLine s.idx) (r, { b := Breaker.init t0, now := t0, t0 := t0 })).1
 
 def driver (secs : List Section) : Report := secs.foldl runSection {}
 
